@@ -573,7 +573,7 @@ def run(tier, seed):
         single = [c for c in full if sum(1 for o in OPTS if c["has"][o]) <= 1]
         multi = [c for c in full if sum(1 for o in OPTS if c["has"][o]) > 1]
         rnd.shuffle(multi)
-        todo = single + multi[:3500]
+        todo = single + multi[:3000]
     else:
         todo = full
         # real constants beyond the scaled model: longer budgets and later terminate indexes
@@ -582,6 +582,17 @@ def run(tier, seed):
             c["k"] = 0 if c["env"] in ("nothing", "ioerror", "unsupported") else rnd.randint(0, 9)
             c["termAt"] = rnd.randint(0, 25)
             todo.append(c)
+    # "tag of each type": the rdwr branch runs against Type 1/2/3/4 tags (quick: one type per configuration,
+    # rotating; thorough: all four)
+    typed, n = [], 0
+    for c in todo:
+        if c["env"] == "tag" and c["has"]["rdwr"] and c["su"]["rdwr"] == "keep":
+            n += 1
+            for tt in ((sorted(TAG_TYPES)[n % 4],) if quick else sorted(TAG_TYPES)):
+                typed.append(dict(c, ttype=tt))
+        else:
+            typed.append(c)
+    todo = typed
     traces, seen = [], set()
     with Timeshift() as ts:
         for c in todo:
@@ -646,7 +657,7 @@ def run(tier, seed):
     ck.sample(dict(sense_trace=straces[7]["id"], events=[(e["a"], e["kinds"], e["res"], e["idx"], e["sent"]) for e in straces[7]["ev"]]))
     ck.sample(dict(mc_connect=dict(distinct=r1.distinct, depth=r1.depth, initial=ninit), mc_sense=dict(distinct=r2.distinct)))
     ck.assume("callbacks are recorders (defaults of the callbacks are not exercised); rdwr uses targets=['106A'], iterations=1",
-              "one environment per call: nothing | Type 2 tag leaving after k presence checks | NFC-DEP/LLCP peer (either "
+              "one environment per call: nothing | Type 1/2/3/4 tag leaving after k presence checks | NFC-DEP/LLCP peer (either "
               "role) releasing after k exchanges | reader leaving after k commands | device raising IOError / "
               "UnsupportedTargetError on discovery; device errors in the middle of an activation are not injected",
               "llcp and card branches run the real nfc.dep / nfc.llcp.llc / Type3TagEmulation code against scripted "
